@@ -135,3 +135,238 @@ Proof.
     rewrite (members_check_refl tc _ _ true Hnd (incl_refl _) Hs). cbn [bind].
     now rewrite mu_missing_refl, key_missing_refl.
 Qed.
+
+(* =========================================================================================
+   What a positive decision says about the member lists of two flat run-time types
+   ========================================================================================= *)
+
+(* flat member types: an accepted pair of type identifiers denotes the same codec type *)
+Lemma flat_tid_assignable : forall tc a b, flat_aty a = true -> flat_aty b = true ->
+  tid_assignable tc (tid_of_aty a) (tid_of_aty b) = Ok true -> ty_of_aty a = ty_of_aty b.
+Proof.
+  intros tc a b Ha Hb H.
+  destruct a as [p|b1|b1|t1]; try discriminate; destruct b as [q|b2|b2|t2]; try discriminate;
+    cbn [tid_of_aty ty_of_aty] in *.
+  - destruct p, q; cbn in H; try discriminate; reflexivity.
+  - destruct p; destruct (b2 <=? 255); cbn in H; discriminate.
+  - destruct p; destruct (b2 <=? 255); cbn in H; discriminate.
+  - destruct q; destruct (b1 <=? 255); cbn in H; discriminate.
+  - reflexivity.
+  - destruct (b1 <=? 255), (b2 <=? 255); cbn in H; discriminate.
+  - destruct q; destruct (b1 <=? 255); cbn in H; discriminate.
+  - destruct (b1 <=? 255), (b2 <=? 255); cbn in H; discriminate.
+  - reflexivity.
+Qed.
+
+Lemma flat_tid_eqb : forall a b, flat_aty a = true -> flat_aty b = true ->
+  tid_eqb (tid_of_aty a) (tid_of_aty b) = true -> ty_of_aty a = ty_of_aty b.
+Proof.
+  intros a b Ha Hb H.
+  destruct a as [p|b1|b1|t1]; try discriminate; destruct b as [q|b2|b2|t2]; try discriminate;
+    cbn [tid_of_aty ty_of_aty] in *;
+    try reflexivity;
+    try (destruct p, q; cbn in H; try discriminate; reflexivity);
+    try (destruct p; destruct (b2 <=? 255); cbn in H; discriminate);
+    try (destruct q; destruct (b1 <=? 255); cbn in H; discriminate);
+    try (destruct (b1 <=? 255), (b2 <=? 255); cbn in H; discriminate).
+Qed.
+
+(* the relation between a reader member and a writer member that the codec proofs need *)
+Definition am_match (a b : amember) : Prop :=
+  am_id a = am_id b /\ ty_of_aty (am_ty a) = ty_of_aty (am_ty b).
+
+Definition flat_member (m : amember) : bool := flat_aty (am_ty m) && negb (m_opt (am_info m)).
+
+Lemma zip_check_true : forall tc l1 l2, zip_check tc l1 l2 = Ok true ->
+  Forall2 (fun m1 m2 => sm_id m1 = sm_id m2 /\ tid_assignable tc (sm_tid m1) (sm_tid m2) = Ok true)
+          (firstn (Nat.min (length l1) (length l2)) l1) (firstn (Nat.min (length l1) (length l2)) l2).
+Proof.
+  intros tc l1. induction l1 as [|m1 r1 IH]; intros l2 H; [constructor|].
+  destruct l2 as [|m2 r2]; [constructor|].
+  cbn [zip_check] in H. cbn [length Nat.min firstn].
+  destruct (Z.eqb_spec (sm_id m1) (sm_id m2)) as [Hid|]; cbn [negb] in H; [|discriminate].
+  destruct (negb (tc_ign_names tc) && negb (sm_name m1 =? sm_name m2)); [discriminate|].
+  destruct (tid_assignable tc (sm_tid m1) (sm_tid m2)) as [[|]| |] eqn:Ht; cbn [bind] in H; try discriminate.
+  constructor; [now split|]. now apply IH.
+Qed.
+
+Lemma members_check_true : forall tc ms1 l2 acc, members_check tc ms1 l2 acc = Ok (Some true) ->
+  acc = true /\
+  forall m2 m1, In m2 l2 -> find_sm (sm_id m2) ms1 = Some m1 ->
+    tid_assignable tc (sm_tid m1) (sm_tid m2) = Ok true.
+Proof.
+  intros tc ms1 l2. induction l2 as [|m r IH]; intros acc H.
+  - cbn [members_check] in H. inversion H. split; [reflexivity|]. intros ? ? [].
+  - cbn [members_check] in H.
+    destruct (find_sm (sm_id m) ms1) as [m1|] eqn:Hf.
+    + destruct (negb (tc_ign_names tc) && negb (sm_name m1 =? sm_name m)); [discriminate|].
+      destruct (tid_assignable tc (sm_tid m1) (sm_tid m)) as [b| |] eqn:Ht; cbn [bind] in H; try discriminate.
+      destruct (IH _ H) as [Hacc Hall]. apply andb_prop in Hacc as [Ha Hb]. subst.
+      split; [reflexivity|]. intros m2 m1' [<-|Hin] Hf'.
+      * rewrite Hf in Hf'. inversion Hf'. subst. exact Ht.
+      * now apply Hall.
+    + destruct (negb (tc_ign_names tc) && has_name ms1 (sm_name m)); [discriminate|].
+      destruct (IH _ H) as [Hacc Hall]. split; [exact Hacc|].
+      intros m2 m1' [<-|Hin] Hf'; [congruence|now apply Hall].
+Qed.
+
+Lemma Forall2_in_r : forall {A B} (Q : A -> B -> Prop) l1 l2 y,
+  Forall2 Q l1 l2 -> In y l2 -> exists x, In x l1 /\ Q x y.
+Proof.
+  intros A B Q l1 l2 y H. induction H as [|a b r1 r2 Hq HF IH]; intros Hin; [destruct Hin|].
+  destruct Hin as [<-|Hin]; [exists a; split; [now left|assumption]|].
+  destruct (IH Hin) as [x [Hx Hqx]]. exists x. split; [now right|assumption].
+Qed.
+
+Lemma Forall2_len : forall {A B} (Q : A -> B -> Prop) l1 l2, Forall2 Q l1 l2 -> length l1 = length l2.
+Proof. intros A B Q l1 l2 H. induction H; cbn [length]; congruence. Qed.
+
+Lemma firstn_incl : forall {A} n (l : list A), incl (firstn n l) l.
+Proof.
+  intros A n. induction n as [|n IH]; intros l x H; [destruct H|].
+  destruct l as [|a r]; [destruct H|]. cbn [firstn] in H. destruct H as [<-|H]; [now left|right; now apply IH].
+Qed.
+
+Lemma list_eqb_Forall2 : forall {A} (eq : A -> A -> bool) l1 l2,
+  list_eqb eq l1 l2 = true -> Forall2 (fun x y => eq x y = true) l1 l2.
+Proof.
+  intros A eq l1. induction l1 as [|x r IH]; intros [|y s] H; try discriminate; [constructor|].
+  cbn [list_eqb] in H. apply andb_prop in H as [H1 H2]. constructor; [assumption|now apply IH].
+Qed.
+
+Lemma Forall2_map : forall {A B C D} (f : A -> C) (g : B -> D) (Q : C -> D -> Prop) l1 l2,
+  Forall2 Q (map f l1) (map g l2) <-> Forall2 (fun a b => Q (f a) (g b)) l1 l2.
+Proof.
+  intros A B C D f g Q l1. induction l1 as [|x r IH]; intros [|y s]; cbn [map]; split; intros H;
+    try (inversion H; fail); try constructor; inversion H; subst; try assumption; now apply IH.
+Qed.
+
+Lemma Forall2_impl_in : forall {A B} (P Q : A -> B -> Prop) l1 l2,
+  (forall a b, In a l1 -> In b l2 -> P a b -> Q a b) -> Forall2 P l1 l2 -> Forall2 Q l1 l2.
+Proof.
+  intros A B P Q l1 l2 Himp H. induction H as [|a b r1 r2 Hp HF IH]; [constructor|].
+  constructor; [apply Himp; [now left|now left|assumption]|].
+  apply IH. intros x y Hx Hy. apply Himp; now right.
+Qed.
+
+Lemma nodup_in_eq : forall ms m1 m2, nodup_z (aids ms) = true -> In m1 ms -> In m2 ms ->
+  am_id m1 = am_id m2 -> m1 = m2.
+Proof.
+  induction ms as [|a r IH]; intros m1 m2 Hnd H1 H2 Hid; [destruct H1|].
+  cbn [aids map nodup_z] in Hnd. apply andb_prop in Hnd as [Hn1 Hn2]. apply negb_true_iff in Hn1.
+  assert (Hnot : forall m, In m r -> am_id m <> am_id a).
+  { intros m Hm Hc. assert (mem (am_id a) (map am_id r) = true); [|congruence].
+    apply mem_true_iff. rewrite <- Hc. now apply in_map. }
+  destruct H1 as [<-|H1], H2 as [<-|H2]; try reflexivity.
+  - exfalso. apply (Hnot m2 H2). congruence.
+  - exfalso. apply (Hnot m1 H1). congruence.
+  - now apply IH.
+Qed.
+
+Lemma flags_of_ext_bits : forall x,
+  Z.testbit (flags_of_ext x) 0 = match x with Final => true | _ => false end /\
+  Z.testbit (flags_of_ext x) 1 = match x with Appendable => true | _ => false end /\
+  Z.testbit (flags_of_ext x) 2 = match x with Mutable => true | _ => false end.
+Proof. destruct x; repeat split; reflexivity. Qed.
+
+Lemma find_sm_map : forall ms m, nodup_z (aids ms) = true -> In m ms ->
+  find_sm (am_id m) (map sm_of ms) = Some (sm_of m).
+Proof.
+  intros ms m Hnd Hin.
+  assert (H : nodup_z (sm_ids (map sm_of ms)) = true).
+  { unfold sm_ids. rewrite map_map. exact Hnd. }
+  exact (find_sm_nodup (map sm_of ms) (sm_of m) H (in_map sm_of ms m Hin)).
+Qed.
+
+(* the shape of two flat types that the code declares assignable *)
+Theorem assignable_shape : forall tc t1 t2,
+  flat_desc t1 = true -> flat_desc t2 = true ->
+  struct_assignable tc (cto_of t1) (cto_of t2) = Ok true ->
+  ad_ext t1 = ad_ext t2 /\
+  match ad_ext t1 with
+  | Mutable =>
+    forall m1 m2, In m1 (ad_members t1) -> In m2 (ad_members t2) -> am_id m1 = am_id m2 ->
+      ty_of_aty (am_ty m1) = ty_of_aty (am_ty m2)
+  | x =>
+    let k := Nat.min (length (ad_members t1)) (length (ad_members t2)) in
+    Forall2 am_match (firstn k (ad_members t1)) (firstn k (ad_members t2)) /\
+    (x = Final -> length (ad_members t1) = length (ad_members t2))
+  end.
+Proof.
+  intros tc [x1 n1 ms1] [x2 n2 ms2] Hf1 Hf2 H. cbn [ad_ext ad_members] in *.
+  unfold flat_desc in Hf1, Hf2. cbn [ad_members] in Hf1, Hf2.
+  apply andb_prop in Hf1 as [Hf1 Hid1]. apply andb_prop in Hf1 as [Hfl1 Hnd1].
+  apply andb_prop in Hf2 as [Hf2 Hid2]. apply andb_prop in Hf2 as [Hfl2 Hnd2].
+  rewrite forallb_forall in Hfl1, Hfl2.
+  assert (Hflat1 : forall m, In m ms1 -> flat_aty (am_ty m) = true)
+    by (intros m Hm; specialize (Hfl1 m Hm); now apply andb_prop in Hfl1 as [? _]).
+  assert (Hflat2 : forall m, In m ms2 -> flat_aty (am_ty m) = true)
+    by (intros m Hm; specialize (Hfl2 m Hm); now apply andb_prop in Hfl2 as [? _]).
+  (* from a pairwise relation on the type objects to am_match *)
+  assert (Hpair : forall l1 l2, incl l1 ms1 -> incl l2 ms2 ->
+            Forall2 (fun m1 m2 => sm_id m1 = sm_id m2 /\
+                                  tid_assignable tc (sm_tid m1) (sm_tid m2) = Ok true)
+                    (map sm_of l1) (map sm_of l2) -> Forall2 am_match l1 l2).
+  { intros l1 l2 Hi1 Hi2 HF. apply Forall2_map in HF.
+    eapply Forall2_impl_in; [|exact HF]. intros a b Ha Hb [Hi Ht]. cbn [sm_of sm_id sm_tid] in *.
+    split; [exact Hi|]. eapply flat_tid_assignable; [apply Hflat1, Hi1, Ha|apply Hflat2, Hi2, Hb|exact Ht]. }
+  unfold struct_assignable in H.
+  destruct (stype_eqb (cto_of (mkAD x1 n1 ms1)) (cto_of (mkAD x2 n2 ms2))) eqn:Heq.
+  - (* identical type objects *)
+    unfold stype_eqb, cto_of in Heq. cbn [st_flags st_name st_members ad_ext ad_name ad_members] in Heq.
+    apply andb_prop in Heq as [Heq Hms]. apply andb_prop in Heq as [Hfl _].
+    apply Z.eqb_eq in Hfl.
+    assert (Hx : x1 = x2) by (destruct x1, x2; cbn in Hfl; congruence). subst x2.
+    split; [reflexivity|].
+    apply list_eqb_Forall2 in Hms. apply Forall2_map in Hms.
+    assert (HF : Forall2 am_match ms1 ms2).
+    { eapply Forall2_impl_in; [|exact Hms]. intros a b Ha Hb Hab. unfold smember_eqb in Hab.
+      cbn [sm_of sm_id sm_flags sm_name sm_tid] in Hab.
+      apply andb_prop in Hab as [Hab Ht]. apply andb_prop in Hab as [Hab _]. apply andb_prop in Hab as [Hi _].
+      apply Z.eqb_eq in Hi. split; [exact Hi|]. apply flat_tid_eqb; auto. }
+    assert (Hlen : length ms1 = length ms2) by (eapply Forall2_len; exact HF).
+    destruct x1.
+    + cbv zeta. rewrite Hlen, Nat.min_id, <- Hlen at 1. rewrite !firstn_all2 by lia. now split.
+    + cbv zeta. rewrite Hlen, Nat.min_id, <- Hlen at 1. rewrite !firstn_all2 by lia. now split.
+    + intros m1 m2 H1 H2 Hid.
+      destruct (Forall2_in_r _ _ _ _ HF H2) as [m1' [H1' [Hid' Hty']]].
+      assert (m1' = m1) by (apply (nodup_in_eq ms1); auto; congruence). subst m1'. exact Hty'.
+  - (* the rules *)
+    unfold struct_rules in H. cbv zeta in H.
+    unfold st_final, st_appendable, st_mutable, cto_of in H.
+    cbn [st_flags st_members ad_ext ad_members] in H.
+    destruct (flags_of_ext_bits x1) as [F1 [A1 M1]]. destruct (flags_of_ext_bits x2) as [F2 [A2 M2]].
+    rewrite F1, F2, A1, A2, M1, M2 in H. rewrite !map_length in H.
+    destruct x1, x2; cbn [orb negb andb Bool.eqb] in H; try discriminate.
+    + (* FINAL / FINAL *)
+      destruct (Z.eqb_spec (Z.of_nat (length ms1)) (Z.of_nat (length ms2))) as [Hlen|]; [|discriminate].
+      cbn [negb] in H. apply Nat2Z.inj in Hlen.
+      destruct (zip_check tc (map sm_of ms1) (map sm_of ms2)) as [[|]| |] eqn:Hz; cbn [bind negb] in H;
+        try discriminate.
+      split; [reflexivity|]. cbv zeta. split; [|intros _; exact Hlen].
+      apply zip_check_true in Hz. rewrite !map_length in Hz. rewrite !firstn_map in Hz.
+      apply Hpair in Hz; [exact Hz| |]; apply firstn_incl.
+    + (* APPENDABLE / APPENDABLE *)
+      destruct (zip_check tc (map sm_of ms1) (map sm_of ms2)) as [[|]| |] eqn:Hz; cbn [bind negb] in H;
+        try discriminate.
+      split; [reflexivity|]. cbv zeta. split; [|discriminate].
+      apply zip_check_true in Hz. rewrite !map_length in Hz. rewrite !firstn_map in Hz.
+      apply Hpair in Hz; [exact Hz| |]; apply firstn_incl.
+    + (* MUTABLE / MUTABLE *)
+      cbn [bind negb] in H.
+      destruct (existsb (fun x => has_id (map sm_of ms1) (sm_id x)) (map sm_of ms2)); cbn [negb] in H;
+        [|discriminate].
+      destruct (members_check tc (map sm_of ms1) (map sm_of ms2) true) as [[acc|]| |] eqn:Hm;
+        cbn [bind] in H; try discriminate.
+      destruct (mu_missing (map sm_of ms1) (map sm_of ms2) || mu_missing (map sm_of ms2) (map sm_of ms1));
+        [discriminate|].
+      destruct (key_missing (map sm_of ms1) (map sm_of ms2) || key_missing (map sm_of ms2) (map sm_of ms1));
+        [discriminate|].
+      inversion H. subst acc. split; [reflexivity|].
+      apply members_check_true in Hm as [_ Hall].
+      intros m1 m2 H1 H2 Hid.
+      specialize (Hall (sm_of m2) (sm_of m1) (in_map sm_of ms2 m2 H2)).
+      cbn [sm_of sm_id sm_tid] in Hall. rewrite <- Hid in Hall.
+      specialize (Hall (find_sm_map ms1 m1 Hnd1 H1)).
+      eapply flat_tid_assignable; [apply Hflat1, H1|apply Hflat2, H2|exact Hall].
+Qed.
